@@ -958,6 +958,20 @@ def _foreign_atoms(v, want):
 EXPRESSION_FACTS = {"leaf.input", "block.size", "blocks.per.piece", "pad.elem", "pad.guard", "pad.count", "root.pad.guard", "root.pad.count", "root.pad.elem"}
 
 
+def _partial_piecewise(v):
+    """`[g] a` without `[not g] b` (and no `[else]`): one arm of a case distinction only."""
+    import re
+    guards = re.findall(r"\[([^\]]*)\] ", v)
+    if not guards or "else" in guards or "" in guards:
+        return False
+    gs = set(guards)
+    for g_ in gs:
+        comp = g_[4:] if g_.startswith("not ") else "not " + g_
+        if " & " in g_ or comp not in gs:
+            return len(gs) == 1 and " & " not in g_
+    return False
+
+
 def _unresolved_locals(f, v, want, accepted, ctx=None):
     """Identifiers of the extracted text that are local variables of the function the fact was read in and occur in no
     specification text for this fact: abbreviations the extractor did not reduce (target = ..., amount = ...)."""
@@ -1010,6 +1024,8 @@ def judge_facts(ctx, rid, who, facts, spec, accept=None, normalise=None, why="",
             # the fact mentions a name the extractor could not reduce to the quantities the specification speaks of (an
             # attribute defined in a way it does not follow, a call of a helper): nothing can be said by comparing texts
             ctx.undecided(rid, f.fn, "%s: %s is `%s`, where %s could not be reduced to the quantities of the specification (`%s`)" % (who, k, v, ", ".join(_foreign_atoms(v, want)), want), label)
+        elif k in ("pad.count", "root.pad.count") and isinstance(v, str) and _partial_piecewise(v):
+            ctx.undecided(rid, f.fn, "%s: %s was extracted as `%s`, a case distinction with a case missing: the other case is computed where the extractor did not look" % (who, k, v), label)
         elif k in EXPRESSION_FACTS and _unresolved_locals(f, v, want, accept.get(k, ()), ctx):
             ctx.undecided(rid, f.fn, "%s: %s is `%s`, where the local name(s) %s could not be reduced to the quantities of the specification (`%s`)" % (
                 who, k, v, ", ".join(_unresolved_locals(f, v, want, accept.get(k, ()), ctx)), want), label)
